@@ -85,6 +85,20 @@ def nonempty_analysis(g: CFG, containers: Set[str]) -> List[Tuple[ast.AST, str, 
     IN: Dict[int, Optional[FrozenSet[str]]] = {n.idx: TOP for n in g.nodes}
     IN[g.entry.idx] = frozenset()
     work = [g.entry]
+    # `n = len(c)` bound once, c never shrunk in this function: a test of n is a test of len(c)
+    from . import util as _util
+    _util.LEN_ALIASES.clear()
+    fn_ = g.fn
+    shrunk = {c_.func.value.id for c_ in ast.walk(fn_) if isinstance(c_, ast.Call) and isinstance(c_.func, ast.Attribute) and isinstance(c_.func.value, ast.Name)
+              and c_.func.attr in ("pop", "popleft", "clear", "remove", "popitem")} \
+        | {t_.value.id for d_ in ast.walk(fn_) if isinstance(d_, (ast.Delete, ast.Assign)) for t_ in (d_.targets if isinstance(d_, (ast.Delete, ast.Assign)) else []) if isinstance(t_, ast.Subscript) and isinstance(t_.value, ast.Name)}
+    for a_ in ast.walk(fn_):
+        if isinstance(a_, ast.Assign) and len(a_.targets) == 1 and isinstance(a_.targets[0], ast.Name) and isinstance(a_.value, ast.Call) and isinstance(a_.value.func, ast.Name) and a_.value.func.id == "len" \
+                and len(a_.value.args) == 1 and isinstance(a_.value.args[0], ast.Name) and a_.value.args[0].id in containers and a_.value.args[0].id not in shrunk:
+            nm_ = a_.targets[0].id
+            if sum(1 for w_ in ast.walk(fn_) if isinstance(w_, ast.Name) and w_.id == nm_ and isinstance(w_.ctx, ast.Store)) == 1 \
+                    and sum(1 for w_ in ast.walk(fn_) if isinstance(w_, ast.Name) and w_.id == a_.value.args[0].id and isinstance(w_.ctx, ast.Store)) <= 1:
+                _util.LEN_ALIASES[nm_] = a_.value.args[0].id
 
     def header_expr(n: Node) -> List[ast.AST]:
         a = n.ast
@@ -144,6 +158,7 @@ def nonempty_analysis(g: CFG, containers: Set[str]) -> List[Tuple[ast.AST, str, 
             continue
         for e in header_expr(n):
             check_expr(e, s, containers, results)
+    _util.LEN_ALIASES.clear()
     return results
 
 
